@@ -94,11 +94,16 @@ impl Pay for Tracked {
     const TRACKED: bool = true;
 }
 
+/// number of tracked payloads whose destructor is running right now
+pub static DROPPING: std::sync::atomic::AtomicU32 = std::sync::atomic::AtomicU32::new(0);
+
 impl Drop for Tracked {
     fn drop(&mut self) {
         // a destructor takes time: other threads may run between its start and the moment the payload is gone
         // (this is what exposes storage handed to a new event while the old payload is still being destroyed)
+        DROPPING.fetch_add(1, SeqCst);
         crate::sched::yield_here("payload.drop");
+        DROPPING.fetch_sub(1, SeqCst);
         if self.alive == ALIVE {
             if let Some(m) = DROPS.lock().unwrap().as_mut() {
                 *m.entry(self.v).or_insert(0) += 1;
@@ -553,6 +558,7 @@ pub struct ChanSut {
     tracked: bool,
     drain: bool,
     probe: i64,
+    max_streams: u32,
 }
 
 pub fn make(kind: &str, scn: &Value) -> Option<Arc<dyn Sut>> {
@@ -579,6 +585,7 @@ pub fn make(kind: &str, scn: &Value) -> Option<Arc<dyn Sut>> {
         tracked,
         drain: scn["drain"].as_bool().unwrap_or(true),
         probe: scn["probe"].as_i64().unwrap_or(-1),
+        max_streams: s as u32,
     };
     // streams created before any thread runs (hooks inactive)
     for how in scn["pre_streams"].as_array().cloned().unwrap_or_default() {
@@ -723,6 +730,27 @@ impl Sut for ChanSut {
                 let made = self.create(how);
                 let how_of = if how == "split" { "old" } else { how };
                 json!({"ok": true, "v": 0, "how": how_of, "s": made.iter().map(|x| x.0).collect::<Vec<_>>(), "ids": made.iter().map(|x| x.1).collect::<Vec<_>>()})
+            }
+            "create_if_room" => {
+                // what a careful user does: a new stream only when the channel reports room for one
+                // (the room reading comes first: with `dropping`, the stream is created only if -- after room was seen -- a payload
+                //  destructor is running at this very instant, with no scheduling point between that observation and the creation)
+                let room = api.running() < self.max_streams;
+                let gate = !op["dropping"].as_bool().unwrap_or(false) || DROPPING.load(SeqCst) > 0;
+                let made = if room && gate { self.create("new") } else { vec![] };
+                json!({"ok": true, "v": 0, "how": "new", "s": made.iter().map(|x| x.0).collect::<Vec<_>>(), "ids": made.iter().map(|x| x.1).collect::<Vec<_>>()})
+            }
+            "wait_drop" => {
+                // waits (a bounded number of scheduling steps) until some payload's destructor is running on another thread
+                let mut seen = false;
+                for _ in 0..op["tries"].as_u64().unwrap_or(40) {
+                    if DROPPING.load(SeqCst) > 0 {
+                        seen = true;
+                        break;
+                    }
+                    ctx.yield_now("wait-drop");
+                }
+                json!({"ok": seen, "v": 0})
             }
             "poll" => self.poll_once(ctx, op["s"].as_u64().unwrap() as usize, op["hold"].as_bool().unwrap_or(false)),
             "drive" => {
